@@ -9,7 +9,8 @@
 //!           "objects": true    -> the context gets `obj`, an Object whose render() writes three pieces into the formatter,
 //!           "sinks": [ {"script": [action, ...], "record": bool} , ... ]}
 //! An action answers ONE call of `io::Write::write`; after the script is used up every call is
-//! answered "full".  Actions:
+//! answered by the sink's "default" action ("full" unless given: a sink that KEEPS failing has
+//! "default": "e:<kind>").  Actions:
 //!   "full"          accept the whole buffer
 //!   "a<n>"          accept at most n bytes, cut back to a char boundary is NOT done (ASCII templates);
 //!                   "a0" answers Ok(0) (std's write_all turns this into ErrorKind::WriteZero)
@@ -61,6 +62,7 @@ fn parse_action(s: &str) -> Action {
 
 struct ScriptSink {
     script: Vec<Action>,
+    default: Action,
     record: bool,
     calls: usize,
     got: Vec<u8>,
@@ -82,7 +84,7 @@ impl Write for ScriptSink {
         if self.record {
             self.offered.push(hex(buf));
         }
-        let act = self.script.get(k).cloned().unwrap_or(Action::Full);
+        let act = self.script.get(k).cloned().unwrap_or_else(|| self.default.clone());
         match act {
             Action::Full => {
                 self.got.extend_from_slice(buf);
@@ -189,7 +191,20 @@ fn run(req: &J) -> J {
     let block = entry.strip_prefix("block:");
     let mut ctxv = Value::from(minijinja::value::Serde(req.get("ctx").cloned().unwrap_or(J::Null)));
     if req.get("objects").and_then(|x| x.as_bool()).unwrap_or(false) {
-        ctxv = context! { obj => Value::from_object(Pieces), ..ctxv };
+        // values a JSON context cannot carry
+        ctxv = context! {
+            obj => Value::from_object(Pieces),
+            fnan => Value::from(f64::NAN),
+            finf => Value::from(f64::INFINITY),
+            fninf => Value::from(f64::NEG_INFINITY),
+            fnegzero => Value::from(-0.0f64),
+            ubig => Value::from(u128::MAX),
+            imin => Value::from(i128::MIN),
+            u64max => Value::from(u64::MAX),
+            raw_bytes => Value::from_bytes(vec![104, 105, 0, 255, 60]),
+            ch => Value::from('<'),
+            ..ctxv
+        };
     }
     let tmpl = match env.get_template(main) {
         Ok(t) => t,
@@ -221,6 +236,7 @@ fn run(req: &J) -> J {
             .unwrap_or_default();
         let mut sink = ScriptSink {
             script,
+            default: s.get("default").and_then(|x| x.as_str()).map(parse_action).unwrap_or(Action::Full),
             record: s.get("record").and_then(|x| x.as_bool()).unwrap_or(false),
             calls: 0,
             got: vec![],
